@@ -39,6 +39,7 @@ func main() {
 		idx, _ := strconv.ParseInt(os.Args[7], 10, 64)
 		only, careful, verbose := false, false, false
 		skip := map[string]bool{}
+		window := int64(0)
 		for _, a := range os.Args[8:] {
 			switch {
 			case a == "only":
@@ -47,13 +48,15 @@ func main() {
 				careful = true
 			case a == "verbose":
 				verbose = true
+			case strings.HasPrefix(a, "window="):
+				window, _ = strconv.ParseInt(a[7:], 10, 64)
 			case strings.HasPrefix(a, "skip="):
 				for _, s := range strings.Split(a[5:], ",") {
 					skip[s] = true
 				}
 			}
 		}
-		os.Exit(fw.WorkerMain(os.Args[2], os.Args[3], sh, n, os.Args[6], idx, only, careful, verbose, skip))
+		os.Exit(fw.WorkerMain(os.Args[2], os.Args[3], sh, n, os.Args[6], idx, only, careful, verbose, skip, window))
 	default:
 		fmt.Println("unknown command")
 		os.Exit(2)
